@@ -200,7 +200,7 @@ func CacheKeyShape(p *core.Program, r *core.Report, rule string) {
 		okGuard := false
 		txt := ""
 		if join != nil {
-			fm, _, found := FactsAt(kf, join, nil)
+			fm, _, found := FactsAt(kf, join, UnfoldingEqAtomizer(info, kf.Decl.Body))
 			if found {
 				txt = facts.StripVersions(facts.String(fm))
 				hasOwner := map[string]bool{}
@@ -238,18 +238,14 @@ func CacheKeyShape(p *core.Program, r *core.Report, rule string) {
 		n := 0
 		for _, fd := range p.Funcs {
 			info := fd.Pkg.TypesInfo
-			ast.Inspect(fd.Decl.Body, func(nd ast.Node) bool {
-				as, ok := nd.(*ast.AssignStmt)
-				if !ok || len(as.Lhs) != 1 {
-					return true
-				}
-				if !fieldPathEndsWith(info, as.Lhs[0], "Owner", "Variant") {
-					return true
+			for _, fw := range FieldWrites(info, fd.Decl.Body) {
+				if fw.Owner != "Owner" || core.RefName(fw.Field) != "Variant" {
+					continue
 				}
 				n++
 				okA := false
 				src := ""
-				if nm, c := callName(info, as.Rhs[0]); nm == "variantFromLabelsMap" && len(c.Args) == 1 {
+				if nm, c := callName(info, ResolveLocal(info, fd.Decl.Body, fw.Value)); nm == "variantFromLabelsMap" && len(c.Args) == 1 {
 					src = core.ExprStr(c.Args[0])
 					// the same labels expression is ranged over to fill the pod's Labels in this function
 					// (a copy loop, maps.Copy(<pod>.Labels, src), or the pod's Labels being src itself)
@@ -267,10 +263,21 @@ func CacheKeyShape(p *core.Program, r *core.Report, rule string) {
 						}
 						return true
 					})
+					// ... or the pod's Labels are what a function of the module makes of that same expression (a copy helper)
+					for _, lw := range FieldWrites(info, fd.Decl.Body) {
+						if lw.Owner != "Pod" || core.RefName(lw.Field) != "Labels" {
+							continue
+						}
+						if core.ExprStr(lw.Value) == src {
+							okA = true
+						}
+						if c2, isC := ast.Unparen(lw.Value).(*ast.CallExpr); isC && len(c2.Args) == 1 && p.ByObj[core.Callee(info, c2)] != nil && core.ExprStr(c2.Args[0]) == src {
+							okA = true
+						}
+					}
 				}
-				r.Check(okA, rule, fd.Key()+": the label variant is the hash of the labels given to the same pod", p.Pos(as.Pos()), "variantFromLabelsMap("+src+")", "Owner.Variant is set from something other than the hash of the pod's own labels")
-				return true
-			})
+				r.Check(okA, rule, fd.Key()+": the label variant is the hash of the labels given to the same pod", p.Pos(fw.At.Pos()), "variantFromLabelsMap("+src+")", "Owner.Variant is set from something other than the hash of the pod's own labels")
+			}
 		}
 		r.RuleCounts[rule+"-variant-writes"] = n
 		r.Floor(rule+"-variant-writes", 2)
@@ -377,7 +384,8 @@ func originOfKeyPart(fd *core.FuncDecl, e ast.Expr, ownerKey *types.Func) string
 		return "?" + id.Name
 	}
 	if c, ok := e.(*ast.CallExpr); ok && core.Callee(info, c) == ownerKey && len(c.Args) == 1 {
-		if rid := core.RootIdent(c.Args[0]); rid != nil {
+		// the pod may be named first (srcPod := src.GetPeerPod()): it stands for that expression
+		if rid := core.RootIdent(ResolveLocal(info, fd.Decl.Body, c.Args[0])); rid != nil {
 			return "owner(" + rid.Name + ")"
 		}
 	}
